@@ -142,10 +142,10 @@ bucket_fromBytes(PyObject *oself, PyObject *state)
     keys = BTree_Realloc(self->keys, sizeof(KEY_TYPE)*len);
     if (keys == NULL)
       return NULL;
+    self->keys = keys;      /* they may have been moved */
     values = BTree_Realloc(self->values, sizeof(VALUE_TYPE)*len);
     if (values == NULL)
       return NULL;
-    self->keys = keys;
     self->values = values;
     self->size = len;
   }
